@@ -128,13 +128,26 @@ func c05SndRun(t *testing.T, ops []string, o *Out) {
 			return 0, nil
 		}))
 		var cur []byte
+		// an `adv` is spent lazily: inside the wrapped reader when a packet follows, else before the next op
+		pendUs := int64(-1)
+		var flush func()
+		spend := func() {
+			if pendUs >= 0 {
+				us := pendUs
+				pendUs = -1
+				time.Sleep(time.Duration(us) * time.Microsecond)
+				synctest.Wait()
+				flush()
+			}
+		}
 		reader := ic.BindRemoteStream(&interceptor.StreamInfo{
 			SSRC:                media,
 			RTPHeaderExtensions: []interceptor.RTPHeaderExtension{{URI: c05TccURI, ID: 5}},
 		}, interceptor.RTPReaderFunc(func(b []byte, a interceptor.Attributes) (int, interceptor.Attributes, error) {
+			spend() // a blocking transport: the time until the packet arrives passes inside this Read
 			return copy(b, cur), a, nil
 		}))
-		flush := func() {
+		flush = func() {
 			mu.Lock()
 			bs := batches
 			batches = nil
@@ -155,6 +168,7 @@ func c05SndRun(t *testing.T, ops []string, o *Out) {
 			case name == "pkt" && len(fs) == 2:
 				seq, ok := c05ParseU(m["seq"], 65535)
 				if !ok {
+					spend()
 					o.P("bad-op")
 					continue
 				}
@@ -162,11 +176,13 @@ func c05SndRun(t *testing.T, ops []string, o *Out) {
 				rtpSeq++
 				ext, _ := (&rtp.TransportCCExtension{TransportSequence: uint16(seq)}).Marshal()
 				if err := h.SetExtension(5, ext); err != nil {
+					spend()
 					o.P("err:ext")
 					continue
 				}
 				raw, err := (&rtp.Packet{Header: h, Payload: []byte{1, 2, 3}}).Marshal()
 				if err != nil {
+					spend()
 					o.P("err:rtp")
 					continue
 				}
@@ -181,13 +197,14 @@ func c05SndRun(t *testing.T, ops []string, o *Out) {
 					o.P("bad-op")
 					continue
 				}
-				time.Sleep(time.Duration(us) * time.Microsecond)
-				synctest.Wait()
-				flush()
+				spend()
+				pendUs = int64(us)
 			default:
+				spend()
 				o.P("bad-op")
 			}
 		}
+		spend()
 		if err := ic.Close(); err != nil {
 			o.P("err:close")
 		}
